@@ -400,7 +400,7 @@ func concMain(args []string) {
 			outcomes[sc.Name+fmt.Sprint(len(fs))] = true
 			if len(fs) > 0 {
 				fs2, _ := concCheck(sc, alone, ch)
-				if fmt.Sprint(keys(fs)) != fmt.Sprint(keys(fs2)) {
+				if fmt.Sprint(keys(fs)) != fmt.Sprint(keys(fs2)) && !onlyRacesLost(fs, fs2) {
 					r.HarnessError("concurrent stage not deterministic for scenario " + sc.Name)
 				} else {
 					for _, f := range fs {
